@@ -53,6 +53,8 @@ type Env struct {
 	rng     *rangeCtx       // the sync.Map being ranged over (at a Range call site)
 	// set while evaluating an opaque predicate's body: heap name -> real term
 	alias *map[string]Term
+	// set while a location expression (assigns clause, ghost left-hand side) is evaluated
+	locMode bool
 }
 
 // rangeCtx: the map a Range closure is applied to. Inside the closure's own
@@ -318,7 +320,14 @@ func (env *Env) eval(e *E) SV {
 	case "tassert":
 		x := env.eval(e.Args[0])
 		t := env.resolveType(e.Type)
-		return SV{V: ex.ifacePayload(env.s, env.term(x), t), T: t}
+		pv := ex.ifacePayload(env.s, env.term(x), t)
+		if p, ok := pv.(PtrV); ok && env.locMode {
+			// in an assigns clause x.(*T).f names a location only when x
+			// holds a *T; otherwise it names no location at all
+			p.Base = Ite(ex.hasTypeCond(env.term(x), t), p.Base, Term{"(- 999999937)", SRef})
+			pv = p
+		}
+		return SV{V: pv, T: t}
 	case "typ":
 		return SV{TypeV: env.resolveType(e.Type)}
 	case "un":
@@ -380,6 +389,52 @@ func (env *Env) eval(e *E) SV {
 				if !seen[p] {
 					seen[p] = true
 					ps = append(ps, ":pattern ("+p+")")
+				}
+			}
+			if len(ps) > 0 {
+				bs = "(! " + bs + " " + strings.Join(ps, " ") + ")"
+			}
+		} else if e.Op == "forall" && len(e.QVars) > 1 && len(pats) > 0 {
+			// several bound variables: one multi-pattern made of the first
+			// read indexed by each variable (for a map invariant these are
+			// the domain tests), and one made of the last such reads
+			var names []string
+			for _, q := range e.QVars {
+				names = append(names, env.term(vars[q.Name]).S)
+			}
+			pick := func(last bool) []string {
+				var out []string
+				for _, n := range names {
+					c := ""
+					for _, p := range pats {
+						if strings.Contains(p, "(ite ") || !strings.Contains(p, n) {
+							continue
+						}
+						other := false
+						for _, m := range names {
+							if m != n && strings.Contains(p, m) {
+								other = true
+							}
+						}
+						if other {
+							continue
+						}
+						if c == "" || last {
+							c = p
+						}
+					}
+					if c == "" {
+						return nil
+					}
+					out = append(out, c)
+				}
+				return out
+			}
+			var ps []string
+			if a := pick(false); a != nil {
+				ps = append(ps, ":pattern ("+strings.Join(a, " ")+")")
+				if b := pick(true); b != nil && strings.Join(b, " ") != strings.Join(a, " ") {
+					ps = append(ps, ":pattern ("+strings.Join(b, " ")+")")
 				}
 			}
 			if len(ps) > 0 {
@@ -639,9 +694,12 @@ func (env *Env) evalIndex(e *E) SV {
 		ks, _ := splitArraySort(mm.Dom.Sort)
 		kt := env.coerce(k, ks)
 		if mm.Val == nil {
-			return SV{V: Scalar{Select(mm.Dom, kt)}, T: types.Typ[types.Bool]}
+			d := Select(mm.Dom, kt)
+			env.notePattern(kt, d)
+			return SV{V: Scalar{d}, T: types.Typ[types.Bool]}
 		}
 		v := Select(*mm.Val, kt)
+		env.notePattern(kt, v)
 		if a.T != nil {
 			if pt, ok := a.T.Underlying().(*types.Pointer); ok {
 				return SV{V: PtrV{Base: v, Root: pt.Elem()}, T: a.T}
@@ -682,6 +740,7 @@ func (env *Env) evalIndex(e *E) SV {
 		vs := sortOf(u.Elem())
 		val := env.heap(vn, SArray(SRef, SArray(sortOf(u.Key()), vs)))
 		v := Select(Select(val, m), k)
+		env.notePattern(k, v)
 		if pt, ok := u.Elem().Underlying().(*types.Pointer); ok {
 			return SV{V: PtrV{Base: v, Root: pt.Elem()}, T: u.Elem()}
 		}
@@ -691,22 +750,39 @@ func (env *Env) evalIndex(e *E) SV {
 	return SV{}
 }
 
+// notePattern records read as a trigger candidate of the innermost
+// quantifier when it is indexed exactly by one of its bound variables.
+func (env *Env) notePattern(idx Term, read Term) {
+	if env.pats != nil && env.qnames[idx.S] && strings.HasPrefix(read.S, "(select ") {
+		*env.pats = append(*env.pats, read.S)
+	}
+}
+
 func (env *Env) evalIn(k SV, m SV) Term {
 	if mm, ok := m.V.(MathMap); ok {
 		ks, _ := splitArraySort(mm.Dom.Sort)
-		return Select(mm.Dom, env.coerce(k, ks))
+		kt := env.coerce(k, ks)
+		d := Select(mm.Dom, kt)
+		env.notePattern(kt, d)
+		return d
 	}
 	if sm, ok := m.V.(SyncMapLoc); ok {
 		n := strings.TrimSuffix(leafHeapName(sm.Root, sm.Path), "|") + "#dom|"
 		dom := env.heap(n, SArray(SRef, SArray(SIface, SBool)))
-		return Select(Select(dom, sm.Base), env.coerce(k, SIface))
+		kt := env.coerce(k, SIface)
+		d := Select(Select(dom, sm.Base), kt)
+		env.notePattern(kt, d)
+		return d
 	}
 	if m.T != nil {
 		if u, ok := m.T.Underlying().(*types.Map); ok {
 			mt := env.term(m)
 			dn, _ := mapHeapNames(u)
 			dom := env.heap(dn, SArray(SRef, SArray(sortOf(u.Key()), SBool)))
-			return And(Not(Eq(mt, TNilR)), Select(Select(dom, mt), env.coerce(k, sortOf(u.Key()))))
+			kt := env.coerce(k, sortOf(u.Key()))
+			d := Select(Select(dom, mt), kt)
+			env.notePattern(kt, d)
+			return And(Not(Eq(mt, TNilR)), d)
 		}
 	}
 	env.fail("'in' on non-map")
